@@ -17,26 +17,32 @@ CAPS = ["Copy", "Clone", "PartialEq", "Eq", "PartialOrd", "Ord", "std::hash::Has
 CAP_TYPES = ["f64", "f32", "i32", "i64", "u64", "isize", "bigint", "biguint", "rational64", "bigrational", "complex64"]
 
 
-def fold_slot(q, u, ty):
-    """Quantity-level construction/read-back vs the bare-number reference with the factor folded to one constant."""
+def fold_slot(q, u, ty, bs="si"):
+    """Quantity-level construction/read-back vs the bare-number reference with the factor folded to ONE constant
+    (K = coefficient / base factor, or its reciprocal), for default and non-default base units."""
     rt = STYPES[ty]["rust"]
     qm, alias, un = q["module"], q["alias"], u["name"]
+    mods = ["length", "mass", "time", "electric_current", "thermodynamic_temperature", "amount_of_substance", "luminous_intensity"]
+    fparts = " ".join(f"* <uom::si::{m}::{n} as uom::Conversion<V>>::coefficient().powi({e})" for m, n, e in zip(mods, T.BASE_SETS[bs], q["dim"]))
     return f"""    type V = {rt};
-    type Q = uom::si::{qm}::{alias}<uom::si::SI<V>, V>;
+    type Q = uom::si::{qm}::{alias}<{B.units_type(bs, ty)}, V>;
     type N = uom::si::{qm}::{un};
     let p = |s: &str| -> V {{ {parse_expr(ty, 's')} }};
     let sh = |v: &V| -> String {{ {show_expr(ty, 'v.clone()')} }};
     let k: V = <N as uom::Conversion<V>>::coefficient();
     let c: V = <N as uom::Conversion<V>>::constant(uom::ConstantOp::Sub);
+    let f: V = (1.0 as V) {fparts};
     let has_offset = c != 0.0;
     let v = p(a[1]);
-    #[inline(never)] fn ref_new(v: V, k: V) -> V {{ v * k }}
-    #[inline(never)] fn ref_new_off(v: V, k: V, c: V) -> V {{ (v + c) * k }}
-    #[inline(never)] fn ref_get(v: V, k: V) -> V {{ if k < 1.0 {{ v * (1.0 / k) }} else {{ v / k }} }}
-    #[inline(never)] fn ref_get_off(v: V, k: V, c: V) -> V {{ (if k < 1.0 {{ v * (1.0 / k) }} else {{ v / k }}) - c }}
+    // the folded constants
+    let (big, kn, kg) = (k >= f, k / f, if k < f {{ f / k }} else {{ k / f }});
+    #[inline(never)] fn mul(v: V, k: V) -> V {{ v * k }}
+    #[inline(never)] fn div(v: V, k: V) -> V {{ v / k }}
+    let ref_new = |x: V| -> V {{ if big {{ mul(x, kn) }} else {{ div(mul(x, k), f) }} }};
+    let ref_get = |x: V| -> V {{ if k < f {{ mul(x, kg) }} else {{ div(x, kg) }} }};
     match a[0] {{
-        "n" => format!("{{}} {{}}", sh(&Q::new::<N>(v).value), sh(&(if has_offset {{ ref_new_off(v, k, c) }} else {{ ref_new(v, k) }}))),
-        "g" => format!("{{}} {{}}", sh(&(Q {{ dimension: PhantomData, units: PhantomData, value: v }}).get::<N>()), sh(&(if has_offset {{ ref_get_off(v, k, c) }} else {{ ref_get(v, k) }}))),
+        "n" => format!("{{}} {{}}", sh(&Q::new::<N>(v).value), sh(&(if has_offset {{ ref_new(v + c) }} else {{ ref_new(v) }}))),
+        "g" => format!("{{}} {{}}", sh(&(Q {{ dimension: PhantomData, units: PhantomData, value: v }}).get::<N>()), sh(&(if has_offset {{ ref_get(v) - c }} else {{ ref_get(v) }}))),
         _ => "BADOP".to_string(),
     }}"""
 
@@ -66,19 +72,20 @@ def run(ctx):
         ctx.violation({"kind": "proof", "obligation": f"{PROPS}: {getattr(ctx, 'proof_error', '')[-1500:]}"}, no_input=True)
     quick = ctx.tier == "quick"
     # (a) extensional equality with the folded bare-number expression (default base units, f64/f32)
-    h = Harness("c04", FEATURE_SETS["all"])
+    h = Harness("c04", FEATURE_SETS["all"], prelude=B.prelude(["si", "cgs", "kgh"], ["f64", "f32"]))
     units = convlib.select_units(t, ctx.rng.fork("units"), 60 if quick else 600)
     cases, meta = [], {}
     for ty in ("f64", "f32"):
-        for (q, u) in units:
-            sl = h.slot(fold_slot(q, u, ty))
-            rng = ctx.rng.fork(f"{ty}:{q['module']}:{u['name']}")
-            vals = list(FC.special_values(ty).values()) + [FC.random_value(rng, ty) for _ in range(8 if quick else 60)]
-            for vb in vals:
-                for d_ in ("n", "g"):
-                    cid = f"z{len(cases)}"
-                    cases.append((cid, sl, [d_, FC.hexbits(vb, ty)]))
-                    meta[cid] = ("fold", ty, q, u, d_, vb, sl)
+        for bs in ("si", "cgs", "kgh"):
+            for (q, u) in (units if bs == "si" else units[::3]):
+                sl = h.slot(fold_slot(q, u, ty, bs))
+                rng = ctx.rng.fork(f"{ty}:{bs}:{q['module']}:{u['name']}")
+                vals = list(FC.special_values(ty).values()) + [FC.random_value(rng, ty) for _ in range(8 if quick else 60)]
+                for vb in vals:
+                    for d_ in ("n", "g"):
+                        cid = f"z{len(cases)}"
+                        cases.append((cid, sl, [d_, FC.hexbits(vb, ty)]))
+                        meta[cid] = ("fold", ty, q, u, d_, vb, sl)
     for ty in CAP_TYPES:
         sl = h.slot(layout_slot(ty))
         cid = f"z{len(cases)}"
